@@ -151,6 +151,14 @@ func c03Cuts(r *rand.Rand, b []byte, lay *pkt.Layout, thorough bool) [][]int {
 		sort.Ints(cs)
 		segs = append(segs, cs)
 	}
+	// empty buffers in front, in the middle (twice in a row) and at the end, as encoders produce them
+	if len(hdr) > 0 && len(b) > 2 {
+		p := hdr[r.Intn(len(hdr))]
+		if p < 1 || p >= len(b) {
+			p = 1 + r.Intn(len(b)-1)
+		}
+		segs = append(segs, []int{0, p, p, p, len(b)})
+	}
 	// all 1-byte segments
 	if len(b) <= 700 {
 		cs := make([]int, 0, len(b))
